@@ -17,7 +17,7 @@
    holdsb itself for every batch whose UDP datagrams all pass the coalescer's gates
    (C16_gro_holdsb_eligible_batches).
    The four repaired defects stay machine-checked as refutations about Old. *)
-From WG Require Import Base.Prelude Gen.Constants Gro.Bytes Gro.Model Gro.OldModel Gro.KernelSpec Gro.Spec Gro.Proofs Gro.Csum Gro.Headers Gro.HeadersTcp Gro.Lossless Gro.Holds Gro.Order Gro.Examples Gro.HoldsAll.
+From WG Require Import Base.Prelude Gen.Constants Gro.Bytes Gro.Model Gro.OldModel Gro.KernelSpec Gro.Spec Gro.Proofs Gro.Csum Gro.Headers Gro.HeadersTcp Gro.Lossless Gro.Holds Gro.Order Gro.CsumKept Gro.Examples Gro.HoldsAll.
 From WG Require Gro.Check.
 Local Open Scope N_scope.
 
@@ -146,11 +146,11 @@ Print Assumptions C16_gro_lossless.
    segments computed once) is the conjunction of the five clauses. *)
 Theorem C16_holdsb_is_the_conjunction : forall inp tw out,
   holdsb inp tw out = bookkeeping_ok inp tw out && passthrough_ok inp tw out && floweq_ok inp tw out
-                      && udp_order_ok inp tw out && headers_valid_ok tw out.
+                      && udp_order_ok inp tw out && headers_valid_ok tw out && csum_kept_ok inp tw out.
 Proof. exact holdsb_clauses. Qed.
 Print Assumptions C16_holdsb_is_the_conjunction.
 
-(* Summary: every clause of holdsb except UDP order, as one boolean. *)
+(* Summary: clauses 1-3 and 5 of holdsb as one boolean (clause 6: C16_gro_csum_kept below). *)
 Theorem C16_gro_holds_core : forall (canUDP : bool) (offset : N) (bufs : list buf),
   bytes_ok bufs ->
   let s := handle_gro canUDP offset bufs in
@@ -225,6 +225,24 @@ Theorem C16_gro_udp_order_restricted : forall (canUDP : bool) (offset : N) (bufs
 Proof. exact gro_udp_order_restricted. Qed.
 Print Assumptions C16_gro_udp_order_restricted.
 
+(* Clause 6 (a packet keeps its transport-checksum verdict; the excepted fields of clause 3 include
+   the checksum, so without it a corrupted packet could be coalesced and leave the kernel with a fresh
+   valid checksum): every member of a coalesced buffer verifies in the input, and the multiset of
+   (verdict, compared bytes) of the kernel's packets is that of the batch. *)
+Theorem C16_gro_members_csum_valid : forall (canUDP : bool) (offset : N) (bufs : list buf) (j : N),
+  let s := handle_gro canUDP offset bufs in
+  s_err s = false -> merged_into (s_trace s) j ->
+  forall m, In m (members (s_trace s) j) -> l4_csum_ok (b_pkt (get_buf bufs m)) = true.
+Proof. exact gro_members_csum_valid. Qed.
+Print Assumptions C16_gro_members_csum_valid.
+Theorem C16_gro_csum_kept : forall (canUDP : bool) (offset : N) (bufs : list buf),
+  bytes_ok bufs ->
+  let s := handle_gro canUDP offset bufs in
+  s_err s = false ->
+  csum_kept_ok bufs (s_tw s) (s_bufs s) = true.
+Proof. exact gro_csum_kept. Qed.
+Print Assumptions C16_gro_csum_kept.
+
 (* The strongest true forms of C16_gro_holdsb_statement (which is refuted above):
    (a) for EVERY batch (of bytes, without empty packets, offset >= 10) handleGRO returns no error
        and all clauses of holdsb hold, the order clause restricted as above; *)
@@ -234,7 +252,8 @@ Theorem C16_gro_holdsb_partial : forall (canUDP : bool) (offset : N) (bufs : lis
   s_err s = false /\
   bookkeeping_ok bufs (s_tw s) (s_bufs s) && passthrough_ok bufs (s_tw s) (s_bufs s)
   && floweq_ok bufs (s_tw s) (s_bufs s) && headers_valid_ok (s_tw s) (s_bufs s)
-  && udp_order_gen WG.Gro.Check.keep_eligible bufs (s_tw s) (s_bufs s) = true.
+  && udp_order_gen WG.Gro.Check.keep_eligible bufs (s_tw s) (s_bufs s)
+  && csum_kept_ok bufs (s_tw s) (s_bufs s) = true.
 Proof. exact gro_holdsb_partial. Qed.
 Print Assumptions C16_gro_holdsb_partial.
 (* (b) holdsb itself, for every batch in which every UDP datagram passes the coalescer's gates. *)
